@@ -229,7 +229,7 @@ where
     if is_reliable {
       topic_cache.get_changes_in_range_reliable(my_guid, last_read_sn)
     } else {
-      topic_cache.get_changes_in_range_best_effort(latest_instant, Timestamp::now())
+      topic_cache.get_changes_in_range_best_effort_for(my_guid, latest_instant, Timestamp::now())
     }
   }
 
